@@ -272,7 +272,12 @@ func (g *G) inline(c ictx, first bool) Inline {
 			if c.inLink {
 				continue
 			}
-			return Auto{g.autoURL()}
+			if g.s.Intn(8) == 0 {
+				// scheme length at the limits: 2 and 32 characters make an autolink, 1 and 33 do not
+				n := []int{1, 2, 32, 33}[g.s.Intn(4)]
+				return Auto{"s" + strings.Repeat("c", n-1) + ":" + g.word(), n == 1 || n == 33}
+			}
+			return Auto{g.autoURL(), false}
 		case 11:
 			if c.inLink {
 				continue
@@ -642,7 +647,18 @@ func (g *G) block(depth int, firstInItem bool, marker byte) Block {
 
 func (g *G) htmlBlock() HTMLB {
 	ind := strings.Repeat(" ", g.s.Intn(4))
-	switch g.s.Intn(7) {
+	switch g.s.Intn(9) {
+	case 7:
+		// start condition 6 in its other spellings: the tag name is followed by a space, a tab, the end of the line, '>' or '/>'
+		open := []string{"<div\tclass=\"a\">", "<div class='a'", "<div", "<div/>", "</div>", "<div\t"}[g.s.Intn(6)]
+		return HTMLB{[]string{ind + open, "*" + g.word() + "*"}}
+	case 8:
+		// start condition 4: "<!" followed by an ASCII letter, in either case
+		first := []string{"<!doctype html>", "<!a", "<!ELEMENT br EMPTY>", "<!x y"}[g.s.Intn(4)]
+		if strings.HasSuffix(first, ">") { // the block ends with the line that holds the first '>'
+			return HTMLB{[]string{ind + first}}
+		}
+		return HTMLB{[]string{ind + first, g.word() + ">"}}
 	case 0:
 		return HTMLB{[]string{ind + "<div>", "*" + g.word() + "*", "</div>"}}
 	case 1:
@@ -669,11 +685,11 @@ func htmlType(h HTMLB) int {
 		return 2
 	case strings.HasPrefix(l, "<?"):
 		return 3
-	case strings.HasPrefix(l, "<!D"):
+	case strings.HasPrefix(l, "<!") && len(l) > 2 && (l[2]|0x20) >= 'a' && (l[2]|0x20) <= 'z':
 		return 4
 	case strings.HasPrefix(l, "<![CDATA["):
 		return 5
-	case strings.HasPrefix(l, "<div"):
+	case strings.HasPrefix(l, "<div"), strings.HasPrefix(l, "</div"):
 		return 6
 	}
 	return 7
